@@ -11,6 +11,7 @@ from concurrent.futures import ThreadPoolExecutor
 
 import common as c
 import evalstream as es
+from gen_programs import Gen
 
 PID = "C19"
 MANIFEST = {
@@ -596,6 +597,13 @@ def main(argv):
             bad = contract_on_binary(cs, r)
             if rp.get("expected") is not None and law_view(obs) != law_view(rp["expected"]):
                 bad.append("observed %s, expected %s" % (obs, rp["expected"]))
+            if rp.get("expected_probe"):
+                txt = r["file"] if cs["out_file"] else r["stdout"]
+                got = as_object_line(txt.strip()) if txt else None
+                gd = dict(got) if got is not None else {}
+                for k_, want_ in rp["expected_probe"].items():
+                    if k_ not in gd or canon(gd[k_]) != want_:
+                        bad.append("probe %s: observed %s, expected %s" % (k_, json.dumps(gd.get(k_)), want_))
             for b in bad:
                 print("still failing:", b)
             return 1 if bad else 0
@@ -638,6 +646,7 @@ def main(argv):
 
     n_cases = 450 if tier == "quick" else 6000
     g = CaseGen(rng)
+    g2 = Gen(rng)
     modes = ["file", "inline", "eval", "file", "inline", "eval", "noscript"]
     cases = []
     for _ in range(n_cases):
@@ -661,6 +670,13 @@ def main(argv):
         if cs["mode"] == "noscript":
             expects.append({"status": "ok", "decls": [], "nonbinding": False})
             continue
+        if rng.chance(1, 4):
+            # a general program from the shared EVAL generator (it emits `output` statements too): no
+            # by-construction expectation, only the structural contract and the model comparison
+            cs["script"] = "\n".join(g2.program(2 + rng.below(7)))
+            expects.append(None)
+            g.note("script:general-program")
+            continue
         src, ex = g.script(dict(merged) if merged is not None else None)
         cs["script"] = src
         expects.append(ex)
@@ -673,13 +689,13 @@ def main(argv):
     status_hist = {}
     for cs, ex, merged, r in zip(cases, expects, mergeds, results):
         obs = observe(cs, r)
-        want = expected_text(cs, ex, merged)
+        want = expected_text(cs, ex, merged) if ex is not None else None
         kc = known_class(cs, ex)
         status_hist[obs.split(";")[0] + ("/-o" if cs["out_file"] else "")] = \
             status_hist.get(obs.split(";")[0] + ("/-o" if cs["out_file"] else ""), 0) + 1
         n_law += 1
         bad = contract_on_binary(cs, r)
-        if law_view(obs) != law_view(want):
+        if want is not None and law_view(obs) != law_view(want):
             bad.append("observed %s but the contract demands %s" % (obs, want))
         if bad:
             if kc is not None:
@@ -784,7 +800,9 @@ def main(argv):
                         mobs.append(canon_top([(k, ivd.get(k)) for k in gd["ks"]]))
             if bad:
                 res.violation("input merging / #name contract broken on the real binary: " + "; ".join(bad[:3]),
-                              replay_dict(cs, r, {"observed_canonical": obs, "probe": True}))
+                              replay_dict(cs, r, {"observed_canonical": obs,
+                                                  "expected_probe": None if merged is None else
+                                                  {k_: canon(v_) for k_, v_ in probe_expected(merged).items()}}))
                 if len(res.violations) >= 5:
                     break
         mouts = c.coq_eval_batch(REQUIRES, "", mterms, "c19i", shard=60)
@@ -825,7 +843,14 @@ def main(argv):
                        "the script argument is never the name of an existing file in inline mode (fresh scratch cwd)"]
 
     # ---------------- known findings: re-run each witness
-    for e in c.open_known(PID):
+    known = c.open_known(PID)
+    if not known:
+        # known_findings.json is generated by tools/mkmanifest.py; fall back to this property's source file
+        kp = os.path.join(c.VERIF, "known", PID + ".json")
+        if os.path.exists(kp):
+            with open(kp) as f:
+                known = [e for e in json.load(f) if e.get("status") == "open"]
+    for e in known:
         w = e.get("witness_case")
         still = True
         if w:
